@@ -18,15 +18,16 @@ ran.append(f"cd <scratch worktree> && git apply patch.diff && python demo.py -> 
 assert w != 0 and wo == 0, (w, wo)
 if suite:
     ran.append(f"pinned suite in the scratch worktree with the patch: {suite}")
-assert sh(f"git apply --check {m}/patch.diff", "/repo").returncode == 0, "patch does not apply to /repo"
-sh(f"git apply {m}/patch.diff", "/repo")
+scratch = f"/tmp/save_mutant_{sid}"
+sh(f"rm -rf {scratch} {scratch}_out && mkdir -p {scratch} && rsync -a --exclude .git /repo/ {scratch}/")
+assert sh(f"patch -p1 -s < {m}/patch.diff", scratch).returncode == 0, "patch does not apply to /repo's tree"
 try:
-    r = sh(f"bin/check {prop}", "/verif")
+    r = subprocess.run(f"bin/check {prop}", shell=True, cwd="/verif", capture_output=True, text=True, env=dict(os.environ, PYVC_REPO=scratch, PYVC_OUT=scratch + "_out"))
 finally:
-    sh("git checkout -- .", "/repo")
+    sh(f"rm -rf {scratch} {scratch}_out")
 viol = [l for l in r.stdout.splitlines() if l.startswith("VIOLATION")]
 det = [l.split("obligation=")[-1] for l in viol]
-ran.append(f"git -C /repo apply patch.diff && bin/check {prop} -> exit {r.returncode} ({len(viol)} VIOLATION lines) && git -C /repo checkout -- .")
+ran.append(f"patch applied to a scratch copy of /repo's tree; PYVC_REPO=<copy> bin/check {prop} -> exit {r.returncode} ({len(viol)} VIOLATION lines); copy removed")
 print(sid, "exit", r.returncode, det[:3])
 if r.returncode != 1 or not viol:
     print(r.stdout[-1500:])
